@@ -3,12 +3,13 @@ use std::rc::Rc;
 
 use rustc_hash::FxHashMap;
 
-use crate::checks::type_checker::check_types;
+use crate::checks::type_checker::{check_types, unify};
 use crate::env::Env;
 use crate::eval::load_toplevel_items;
 use crate::garden_type::Type;
 use crate::parser::ast::{
-    Block, Expression, FunInfo, IdGenerator, LetDestination, Symbol, SyntaxId, TypeHint,
+    Block, Expression, Expression_, FunInfo, IdGenerator, LetDestination, Symbol, SyntaxId,
+    TypeHint,
 };
 use crate::parser::parse_toplevel_items;
 use crate::parser::vfs::Vfs;
@@ -144,13 +145,46 @@ impl AnnotationFinder<'_> {
     }
 
     /// The inferred return type of a function body: the type of its
-    /// final expression, or `Unit` for an empty body.
+    /// final expression (`Unit` for an empty body) combined with the
+    /// type of every value it returns early. `None` if those types
+    /// have nothing in common.
     fn body_return_ty(&self, body: &Block) -> Option<Type> {
-        match body.exprs.last() {
-            Some(expr) => self.id_to_ty.get(&expr.id).cloned(),
-            None => Some(Type::unit()),
+        let mut ty = match body.exprs.last() {
+            Some(expr) => self.id_to_ty.get(&expr.id).cloned()?,
+            None => Type::unit(),
+        };
+
+        let mut finder = ReturnFinder { returned: vec![] };
+        finder.visit_block(body);
+        for returned in finder.returned {
+            let returned_ty = match returned {
+                Some(id) => self.id_to_ty.get(&id).cloned()?,
+                None => Type::unit(),
+            };
+            ty = unify(&ty, &returned_ty)?;
         }
+
+        Some(ty)
     }
+}
+
+/// Finds the values given to `return` in a function body, not
+/// including nested function literals.
+struct ReturnFinder {
+    /// The ID of each returned expression, or `None` for a bare
+    /// `return`.
+    returned: Vec<Option<SyntaxId>>,
+}
+
+impl Visitor for ReturnFinder {
+    fn visit_expr(&mut self, expr: &Expression) {
+        if let Expression_::Return(value) = &expr.expr_ {
+            self.returned.push(value.as_ref().map(|v| v.id));
+        }
+        self.visit_expr_(&expr.expr_);
+    }
+
+    fn visit_expr_fun_literal(&mut self, _: &FunInfo) {}
 }
 
 impl Visitor for AnnotationFinder<'_> {
